@@ -63,6 +63,7 @@ type Obligation struct {
 	ReplayConfirmed bool
 	CexOutput string
 	LightGoal string
+	KnownFinding bool
 	qs [4]string
 }
 
